@@ -22,6 +22,7 @@ table = [  # (property, subject substring, what failed)
  ("C08", "Delete with KeepRewriteVersion reads the writer", "data race: delete() read l.writer.messages.Version() without writerMu (KeepRewriteVersion) against the l.writer assignment of a concurrent rollover (log.go:398 vs log.go:180 at the pinned commit)"),
  ("C19", "OpenBlocking closes the log when wrapping it fails", "OpenBlocking left the opened log (and its directory lock) behind when WrapBlocking failed, e.g. a lazy read-only open meeting a corrupt index: every later Open failed with 'already locked' (findings/C19-openblocking-lock-leak.json)"),
  ("C19", "GC on a read-only log without segments", "read-only handle on a directory without segments: GC(0) unloaded the placeholder index and every later query failed with 'no such file or directory' (findings/C19-readonly-empty-gc.json)"),
+ ("C15", "the time index no longer clamps timestamps before 1970", "messages dated before the Unix epoch were indexed at time 0 (the running maximum started at 0): GetByTime(1970) returned a message older than the query, FindByAge/TrimByAge with a later bound selected nothing (findings/C15-pre-epoch-times-clamped.json)"),
 ]
 out = []
 for prop, sub, text in table:
